@@ -21,6 +21,7 @@ import (
 	"fmt"
 	"io"
 	"math"
+	"slices"
 	"strconv"
 
 	"seehuhn.de/go/postscript/psenc"
@@ -666,7 +667,18 @@ func bForall(intp *Interpreter) error {
 		}
 	case Dict:
 		intp.Stack = intp.Stack[:len(intp.Stack)-2]
-		for key, val := range obj {
+		// visit the entries in a fixed order, so that the result of a
+		// program does not depend on the iteration order of Go maps
+		keys := make([]Name, 0, len(obj))
+		for key := range obj {
+			keys = append(keys, key)
+		}
+		slices.Sort(keys)
+		for _, key := range keys {
+			val, ok := obj[key]
+			if !ok { // removed by the procedure
+				continue
+			}
 			intp.Stack = append(intp.Stack, key, val)
 			err := intp.executeOne(proc, true)
 			if err == errExit {
